@@ -28,9 +28,12 @@ fn safe_join(root: &Path, rel: &str) -> Option<PathBuf> {
     Some(root.join(p))
 }
 
+/// Staging name for `dst`. It carries this server's pid: concurrent server
+/// processes writing the same path must never share (and truncate) one staging
+/// file. It still ends in the reserved `.copia-tmp` suffix.
 fn tmp_of(dst: &Path) -> PathBuf {
     let mut s = dst.as_os_str().to_owned();
-    s.push(".copia-tmp");
+    s.push(format!(".{}.copia-tmp", std::process::id()));
     PathBuf::from(s)
 }
 
